@@ -498,7 +498,7 @@ static void ex_columns(carquet_reader_t* r, long batch, long skip, stats_t* st) 
             if (skip > 0) { (void)carquet_column_skip(col, skip); st->calls++; }
             long iters = 0;
             while (carquet_column_has_next(col)) {
-                if (++iters > 100000) { st->livelock++; break; }
+                ++iters;       /* every iteration delivers at least one value or ends the loop; a real hang is the CPU limit's business */
                 memset(vals, 0, (size_t)(batch * vs));
                 int64_t n = carquet_column_read_batch(col, vals, batch, defs, reps);
                 st->calls++;
@@ -555,9 +555,10 @@ static void ex_batch(carquet_reader_t* r, long batch_size, int proj, stats_t* st
     carquet_batch_reader_t* br = carquet_batch_reader_create(r, &cfg, &e);
     st->calls++;
     if (!br) { if (!err_ok(&e)) BAD(st, 10); note_err(st, (int)e.code); return; }
-    long iters = 0;
+    long iters = 0, idle = 0;
     for (;;) {
-        if (++iters > 20000) { st->livelock++; break; }
+        ++iters;
+        if (idle > 2000) { st->livelock++; break; }     /* 2000 consecutive batches without a row: no progress */
         carquet_row_batch_t* b = NULL;
         carquet_status_t c = carquet_batch_reader_next(br, &b);
         st->calls++;
@@ -565,7 +566,7 @@ static void ex_batch(carquet_reader_t* r, long batch_size, int proj, stats_t* st
         if (!b) { BAD(st, 12); break; }
         int32_t bc = carquet_row_batch_num_columns(b);
         int64_t rows = carquet_row_batch_num_rows(b);
-        (void)rows;
+        idle = rows > 0 ? 0 : idle + 1;
         for (int32_t i = -1; i <= bc; i++) {
             const void* data; const uint8_t* bm; int64_t nv;
             carquet_status_t cc = carquet_row_batch_column(b, i, &data, &bm, &nv);
